@@ -6,7 +6,7 @@ from concurrent.futures import ThreadPoolExecutor
 import common
 
 CORPUS_SEED = 1
-CORPUS_N = 50
+CORPUS_N = 52
 
 HEX_OK = "4f6b28"      # Ok(
 HEX_ERR = "45727228"   # Err(
@@ -195,6 +195,10 @@ class EpisodeMonitor:
                 if s["is_async"] and stored and not oversize and (d is None or key not in d[0] or d[0][key][0] != o["would"]):
                     pid = "C10" if s["cache_if"] else ("C09" if s["is_result"] else "C01")
                     self.fail(pid, f"call {op}: the result was accepted for caching but the cache does not hold it afterwards")
+                # a stale entry that is refreshed is replaced in place (sync plain store): the fresh value is cached
+                if (not s["is_async"]) and o["check"] and stored and not s["use_mem"] and \
+                        (d is None or key not in d[0] or d[0][key][0] != o["would"]):
+                    self.fail("C11", f"call {op}: the entry was judged stale and recomputed, but the fresh value is not in the cache afterwards")
                 if (not stored) and d is not None and key in d[0] and d[0][key][0] == o["would"] and not o["check"]:
                     pid = "C10" if s["cache_if"] else "C09"
                     self.fail(pid, f"call {op}: a result that must not be cached (rejected / Err) is in the cache afterwards")
